@@ -7,12 +7,15 @@ Local Opaque Qred.
 
 (* ------------------------------------------------------------ the quick matcher and its memo *)
 
+(* the next two lemmas hold whatever cases the source has: pp_ok is not looked into *)
+Local Opaque pp_ok.
+
 (* post_pred, when it does not throw, returns what the full predicate returns (whatever the source's
    set of cases is: a case that is not there only makes the quick matcher decline) *)
 Lemma quick_eval_sound payee p : forall e b, quick_eval p e = Some b -> pred_eval payee p e = Ok b.
 Proof.
   induction e as [s | s | a | a | q IH | q IHq r IHr | q IHq r IHr | c | q IHq r IHr | c IHc q IHq r IHr];
-    intros b; cbn [quick_eval pred_eval]; try discriminate.
+    intros b; cbn [quick_eval pred_eval]; try match goal with |- None = Some _ -> _ => discriminate end.
   - destruct (pp_ok PpMatchAccount); [|discriminate]. intros [= <-]. reflexivity.
   - destruct (pp_ok PpNot); [|discriminate].
     destruct (quick_eval p q) as [bq|]; [|discriminate]. intros [= <-].
@@ -40,14 +43,17 @@ Qed.
 Lemma quick_eval_acct_only p p' : p_acct p = p_acct p' -> forall e, quick_eval p e = quick_eval p' e.
 Proof.
   intros Ha. induction e as [s | s | a | a | q IH | q IHq r IHr | q IHq r IHr | c | q IHq r IHr | c IHc q IHq r IHr];
-    cbn [quick_eval]; try reflexivity.
+    cbn [quick_eval]; try match goal with |- None = None => reflexivity end.
   - rewrite Ha. reflexivity.
   - rewrite IH. reflexivity.
   - rewrite IHq, IHr. reflexivity.
   - rewrite IHq, IHr. reflexivity.
+  - reflexivity.
   - rewrite IHq, IHr. reflexivity.
   - rewrite IHc, IHq, IHr. reflexivity.
 Qed.
+
+Local Transparent pp_ok.
 
 (* the source has the seven cases in the transcribed form (Gen/PostPred.v, regenerated on every run) *)
 Lemma post_pred_cases_transcribed :
